@@ -9,7 +9,8 @@ package main
 // every possible first byte (the only byte the bucket function reads) twice
 // (with differing tails).  Oracle: the selected sets are pairwise disjoint and
 // their union is the whole pack set; t beyond the number of distinct first
-// bytes must be rejected (otherwise some bucket could never be covered).
+// bytes must be rejected (otherwise some bucket could never be covered).  The
+// same for six sparse pack sets (0, 1, 3, 4 and 6 packs: most buckets are empty).
 // Percentages and sizes: a grid over the accepted range x pack counts 0..300.
 
 import (
@@ -32,6 +33,29 @@ func verifC52Packs() map[restic.ID]int64 {
 		}
 	}
 	return packs
+}
+
+// verifC52SparseSets: small repositories (some buckets stay empty for most t).
+func verifC52SparseSets() map[string]map[restic.ID]int64 {
+	mk := func(first ...int) map[restic.ID]int64 {
+		m := map[restic.ID]int64{}
+		for i, b := range first {
+			var id restic.ID
+			id[0] = byte(b)
+			id[1] = byte(i)
+			id[31] = 0x11
+			m[id] = int64(500 + i)
+		}
+		return m
+	}
+	return map[string]map[restic.ID]int64{
+		"empty":      mk(),
+		"one":        mk(0x9c),
+		"four-low":   mk(0, 1, 2, 3),
+		"three-far":  mk(7, 77, 200),
+		"same-byte":  mk(255, 255, 255),
+		"six-spread": mk(0, 51, 102, 153, 204, 255),
+	}
 }
 
 func TestVerif_C52(t *testing.T) {
@@ -101,6 +125,42 @@ func TestVerif_C52(t *testing.T) {
 		}
 		if tt == 3 {
 			r.Sample(map[string]any{"t": tt, "accepted_n": accepted, "packs": len(all), "covered_once": len(all) - missing - dup})
+		}
+		// sparse repositories: few packs, so that some buckets are empty for this t
+		if tt >= 1 && tt <= 256 {
+			for name, sparse := range verifC52SparseSets() {
+				seenS := map[restic.ID]int{}
+				for n := 1; n <= tt; n++ {
+					s := fmt.Sprintf("%d/%d", n, tt)
+					filter, err := buildPacksFilter(CheckOptions{ReadDataSubset: s}, printer, false)
+					if err != nil || filter == nil {
+						continue // reported above
+					}
+					in := make(map[restic.ID]int64, len(sparse))
+					for k, v := range sparse {
+						in[k] = v
+					}
+					r.Eval(1)
+					for id, sz := range filter(in) {
+						if sparse[id] != sz {
+							r.Violationf(ck, "C52|foreign|sparse|"+s, s, "subset %s selected a pack/size not in the repository (%s)", s, name)
+						}
+						seenS[id]++
+					}
+				}
+				missing, dup := 0, 0
+				for id := range sparse {
+					switch c := seenS[id]; {
+					case c == 0:
+						missing++
+					case c > 1:
+						dup++
+					}
+				}
+				if missing > 0 || dup > 0 {
+					r.Violationf(ck, fmt.Sprintf("C52|partition|sparse=%s|t=%d", name, tt), tt, "t=%d, pack set %s (%d packs): buckets 1..t do not partition the packs: %d packs in no bucket, %d packs in several buckets", tt, name, len(sparse), missing, dup)
+				}
+			}
 		}
 	}
 
